@@ -94,7 +94,7 @@ def _sort_key(x):
     return repr(x)
 
 
-NAMES3 = ("n0", "n1", "n2")
+NAME_FIELDS = ("source", "destination", "candidate_id", "from", "leader_id")
 
 
 class World:
@@ -149,8 +149,9 @@ class World:
         for ev in events or []:
             tgt = ev.target
             if tgt is self.net:
-                self.msgs.append(ev)
                 md = ev.context["metadata"]
+                self.msgs.append((ev, msg_key(ev), ev.event_type, tuple(md.get(k) for k in NAME_FIELDS),
+                                  freeze({k: x for k, x in md.items() if k not in NAME_FIELDS})))
                 if ev.event_type == "RaftVoteResponse" and md.get("vote_granted"):
                     self.g_votes.setdefault((md.get("term"), md.get("from")), set()).add(md.get("destination"))
             elif getattr(tgt, "name", None) in self.timers and tgt is self.nodes[tgt.name]:
@@ -167,8 +168,7 @@ class World:
         p, u = self.p, self.used
         labs = []
         seen = set()
-        for ev in self.msgs:
-            k = msg_key(ev)
+        for _ev, k, _et, _nz, _rest in self.msgs:
             if k in seen:
                 continue
             seen.add(k)
@@ -197,9 +197,9 @@ class World:
         return labs
 
     def _take_msg(self, etype, fz):
-        for i, ev in enumerate(self.msgs):
-            if ev.event_type == etype and msg_key(ev)[1] == fz:
-                return self.msgs.pop(i)
+        for i, rec in enumerate(self.msgs):
+            if rec[2] == etype and rec[1][1] == fz:
+                return self.msgs.pop(i)[0]
         raise KeyError(f"no in-flight message {etype} {fz}")
 
     def apply(self, lab):
@@ -379,30 +379,38 @@ class World:
         return not self.viol and len(self.msgs) <= self.p.get("max_msgs", 8)
 
     # -- state hash -------------------------------------------------------------
-    def _node_canon(self, nm):
+    def _node_canon(self, nm, ren):
         nd = self.nodes[nm]
+        g = ren.get
         try:
-            priv = (nd._voted_for, nd._leader, nd._last_applied,
-                    tuple(sorted(nd._next_index.items())), tuple(sorted(nd._match_index.items())),
-                    tuple(sorted(nd._votes_received_set)),
+            priv = (g(nd._voted_for, nd._voted_for), g(nd._leader, nd._leader), nd._last_applied,
+                    tuple(sorted((g(k, k), x) for k, x in nd._next_index.items())),
+                    tuple(sorted((g(k, k), x) for k, x in nd._match_index.items())),
+                    tuple(sorted(g(k, k) for k in nd._votes_received_set)),
                     tuple(sorted((k, f.is_resolved) for k, f in nd._pending_futures.items())),
                     bool(getattr(nd, "_crashed", False)))
         except AttributeError:  # refactored internals: fall back to everything the object holds
-            priv = ("vars", tuple(sorted((k, repr(freeze(val)) if not isinstance(val, (Event, Network, list)) else
-                                          type(val).__name__) for k, val in vars(nd).items()
-                                         if k not in ("_network", "_peers", "_clock", "_state_machine"))))
-        log = tuple((e.term, e.command) for e in (nd.log.get(i) for i in range(1, nd.log.last_index + 1)))
-        return (nm, nd.state.name, nd.current_term, log, nd.log.commit_index, priv,
-                tuple(self.sms[nm].applied),
-                tuple(sorted(t.event_type for t in self.timers[nm] if not t.cancelled)))
+            priv = ("vars", _rename(tuple(sorted(
+                (k, repr(freeze(val)) if not isinstance(val, (Event, Network, list)) else type(val).__name__)
+                for k, val in vars(nd).items() if k not in ("_network", "_peers", "_clock", "_state_machine"))), ren))
+        return (g(nm, nm),) + self._sig(nm) + (priv,)
 
-    def _canon_base(self):
-        return (tuple(self._node_canon(nm) for nm in self.names),
-                tuple(sorted((msg_key(ev) for ev in self.msgs), key=_sort_key)),
-                tuple(sorted(self.g_leader.items())),
+    def _sig(self, nm):
+        """Name-free part of a node's state (public properties + harness bookkeeping)."""
+        nd = self.nodes[nm]
+        lg = nd.log
+        return (nd.state.name, nd.current_term,
+                tuple((e.term, e.command) for e in (lg.get(i) for i in range(1, lg.last_index + 1))),
+                lg.commit_index, tuple(self.sms[nm].applied),
+                tuple(sorted(t.event_type for t in self.timers[nm] if not t.cancelled)), nm in self.down)
+
+    def _canon_named(self, ren):
+        g = ren.get
+        return (tuple(sorted(self._node_canon(nm, ren) for nm in self.names)),
+                tuple(sorted((et, tuple(g(x, x) for x in nmz), rest) for _ev, _k, et, nmz, rest in self.msgs)),
+                tuple(sorted((t, g(x, x)) for t, x in self.g_leader.items())),
                 tuple(sorted(self.g_commit.items())),
-                tuple(sorted(self.down)),
-                tuple((nm, cmd, f.is_resolved, freeze(f.value) if f.is_resolved else None)
+                tuple((g(nm, nm), cmd, f.is_resolved, freeze(f.value) if f.is_resolved else None)
                       for nm, cmd, f, _k in self.futures),
                 tuple(sorted(self.used.items())))
 
@@ -410,17 +418,17 @@ class World:
         """Every field a handler reads (public state + the listed private fields), the in-flight
         multiset, live timers, budgets used and the ghosts.  With symmetry: the minimum over all
         node renamings (handlers never order by node name; peers are iterated only to emit one
-        message each into an unordered bag), so permuted states have isomorphic futures."""
-        base = self._canon_base()
+        message each into an unordered bag), so permuted states have isomorphic futures.  Nodes
+        are first ordered by their name-free signature; only ties are permuted (same minimum)."""
         if not self.p.get("symmetry", True):
-            return base
+            return repr(self._canon_named({}))
+        sigs = sorted((repr(self._sig(nm)), nm) for nm in self.names)
+        groups = [[nm for _s, nm in grp] for _k, grp in itertools.groupby(sigs, key=lambda x: x[0])]
         best = None
-        for perm in itertools.permutations(self.names):
-            ren = dict(zip(self.names, perm))
-            nodes, msgs, gl, gc, down, futs, used = _rename(base, ren)
-            c = (tuple(sorted(nodes, key=_sort_key)), tuple(sorted(msgs, key=_sort_key)),
-                 tuple(sorted(gl)), gc, tuple(sorted(down)), futs, used)
-            r = repr(c)
+        for combo in itertools.product(*[list(itertools.permutations(grp)) for grp in groups]):
+            order = [nm for grp in combo for nm in grp]
+            ren = {nm: f"n{i}" for i, nm in enumerate(order)}
+            r = repr(self._canon_named(ren))
             if best is None or r < best:
                 best = r
         return best
@@ -439,11 +447,9 @@ class World:
 # scenario worlds (E1)
 # ---------------------------------------------------------------------------
 def _find(w, etype, src, dst):
-    for ev in sorted(w.msgs, key=lambda e: _sort_key(msg_key(e))):
-        md = ev.context["metadata"]
-        if ev.event_type == etype and md["source"] == src and md["destination"] == dst:
-            k = msg_key(ev)
-            return ("deliver", k[0], k[1])
+    for rec in sorted(w.msgs, key=lambda r: _sort_key(r[1])):
+        if rec[2] == etype and rec[3][0] == src and rec[3][1] == dst:
+            return ("deliver", rec[1][0], rec[1][1])
     raise KeyError((etype, src, dst))
 
 
@@ -456,7 +462,7 @@ def run_script(w, steps):
         elif s[0] == "drain":  # deliver everything in flight, canonical order, until quiescent
             labs = None
             while w.msgs:
-                k = sorted((msg_key(e) for e in w.msgs), key=_sort_key)[0]
+                k = sorted((r[1] for r in w.msgs), key=_sort_key)[0]
                 lab = ("deliver", k[0], k[1])
                 w.apply(lab)
                 labels.append(lab)
@@ -515,7 +521,7 @@ class MakeWorld:
             for s in steps:
                 if s == ("drop",):  # drop whatever is still in flight
                     while w.msgs:
-                        k = msg_key(w.msgs[0])
+                        k = w.msgs[0][1]
                         fixed.append(("drop", k[0], k[1]))
                         w.apply(fixed[-1])
                 else:
